@@ -8,9 +8,9 @@ from vlib import log
 # which conjunct classes of the trace specification speak for which property (used to describe a divergence)
 FOCUS = {
     "C01": dict(gens=[("file", 22), ("keys", 20)], quick=80, thorough=1500, what="export/tamper/import histories over two wallets"),
-    "C02": dict(gens=[("core", 16)], quick=110, thorough=1500, what="all wallet calls with restart projection after every step"),
+    "C02": dict(gens=[("core", 16), ("keys", 16)], quick=75, thorough=1500, what="all wallet calls with restart projection after every step"),
     "C03": dict(gens=[("core", 16), ("file", 20)], quick=80, thorough=1500, what="passphrase arguments of every class; secrets in memory while locked"),
-    "C04": dict(gens=[("core", 14), ("file", 14)], quick=70, thorough=800, what="clear-text scan of store, exports and log after every step"),
+    "C04": dict(gens=[("core", 14), ("file", 14), ("keys", 16)], quick=55, thorough=800, what="clear-text scan of store, exports and log after every step"),
     "C05": dict(gens=[("core", 16), ("keys", 22)], quick=90, thorough=1200, what="every issued key signs verifiably iff unlocked, also after export / delete / import"),
     "C06": dict(gens=[("core", 16), ("file", 16), ("keys", 18)], quick=55, thorough=800, what="plot-key issuance interleaved with everything else"),
     "C12": dict(gens=[("fault", 12), ("fault", 14)], quick=110, thorough=1200, what="faults at writes and commits of every mutating call"),
